@@ -240,6 +240,34 @@ def _region_end(E, q):
     return len(E)
 
 
+def deviation_class(toks, syn_ranges, pos, merged):
+    """names the construct whose comma was mishandled by a scanner that deviates from the documented one"""
+    if merged:
+        return "separator-comma-swallowed"
+    (s, e) = next((s, e) for (s, e) in syn_ranges if s <= pos < e)
+    E = toks[s:e]
+    p = pos - s
+    stack = []
+    bars = 0
+    for k in range(p):
+        t = E[k]
+        if is_p(t, "|"):
+            bars += 1
+        if is_p(t, "<"):
+            stack.append(k)
+        elif is_p(t, ">") and not _is_arrow(E, k) and not (k > 0 and is_p(E[k - 1], "=") and E[k - 1]["j"]) and stack:
+            stack.pop()
+    for q in stack:            # outermost enclosing `<` first
+        ctx = _angle_context(E, q)
+        if ctx == "turbofish":
+            return "turbofish-generic-args-split"
+        if ctx == "qpath":
+            return "qualified-path-split"
+    if bars % 2 == 1:
+        return "closure-params-split"
+    return "argument-split-inside-expression"
+
+
 def classify(toks, syn_ranges, dm_ranges):
     """class key of a split that differs from syn's, from the first diverging comma"""
     S = set(e for (_, e) in syn_ranges if e < len(toks))
@@ -248,11 +276,13 @@ def classify(toks, syn_ranges, dm_ranges):
     if not diff:
         return "split-differs"
     pos = min(diff)
+    r = py_split(toks)
+    if r is None or r[0] != dm_ranges:
+        # the observed split is NOT what the documented scanner (parsing.rs as modelled: `::<..>`, `<..>::`, `|..|`
+        # kept together, everything else token by token) produces: none of the recorded design limits explains it
+        return deviation_class(toks, syn_ranges, pos, pos in S)
     if pos in S:
         # a separator comma was swallowed by the scanner
-        r = py_split(toks)
-        if r is None or r[0] != dm_ranges:
-            return "unexplained-merge"
         kind = r[1].get(pos)
         return {"bars": "bar-pair-across-comma", "qpath": "lt-gt-across-comma",
                 "turbofish": "unexplained-merge-in-turbofish"}.get(kind, "unexplained-merge")
@@ -318,6 +348,13 @@ CORPUS = [
     "true, false, self, _", "break, continue, return", "r#type, r#fn = 1", "n = |a, b| a, m = x as T<A, B>",
     "'a: loop { break 'a 1, }, y", "m!(a, b), [a, b], (a, b), {a; b}", "x.0.1, y", "..", "a.., ..b, a..=b",
     "",  ",", "a,", "a,,", ",a", "a b", "= a", "a =", "x = ", "x = y = z", "- 1, -x", "&a, &mut b, *c, !d",
+    # qualified paths / turbofish that do not open the argument, literals and arrows inside generic lists
+    "&<A as T<B, C>>::X, y", "1 + <A as T<B, C>>::X, y", "-<A as T<B, C>>::X.f(), y", "n = <A as T<B, C>>::X, y",
+    "x.f(<A as T<B, C>>::X), y", "a == <A as T<B, C>>::X, y", "!<A as T<B, C>>::X, <A as T<B, C>>::Y",
+    "tag::<1, 2>(), y", "f::<'c', \"s\", 2, true>(), y", "<M<1, 2>>::new(), y", "|a: M<1, 2>, b| a, y",
+    "f::<fn(A) -> B, C>(), y", "<M<K, fn() -> V>>::new(), y", "|f: fn(A) -> B, g| f, y",
+    "x=*y, z", "x=-1, y", "x=&y, z", "x=!y, z", "x=<A as T<B, C>>::X, y", "x=|a, b| a, y", "x=::std::f(), y",
+    "x =y, z", "x= y, z", "x=y", "x=(y), z",
     "a::<B, C>::d::<E, F>(), g", "a -> b, c", "a => b, c", "a <- b, c", "f::<{ a < b }, 3>(), x", "a < b > ::c, d",
 ]
 
@@ -578,6 +615,246 @@ def shrink(runner, spec, key, budget=8):
     return cur
 
 
+# ------------------------------------------------------------------ argument resolution oracle
+# "the positional indices and `name =` aliases the derive uses for bound inference and pass-through denote the same
+#  arguments as they do for format_args!"
+
+TRAIT_OF_TYPE = {"": "Display", "?": "Debug", "x": "LowerHex", "X": "UpperHex", "o": "Octal", "b": "Binary",
+                 "e": "LowerExp", "E": "UpperExp", "p": "Pointer"}
+ATTR_OF_DERIVE = {"Display": "display", "Debug": "debug", "LowerHex": "lower_hex", "Binary": "binary"}
+
+SHAPES = [  # argument expressions that are NOT a bare field (F = a field identifier); no recorded design limit inside
+    "{F} . x", "& {F}", "* {F}", "{F} + 1", "( {F} , 1 )", "[ {F} , {F} ]", "f ::< A , B > ( {F} )",
+    "< A as T < B , C >> :: X", "& < A as T < B , C >> :: X", "1 + < A as T < B , C >> :: X", "- < A as T < B , C >> :: f ( {F} )",
+    "{F} . m ::< A , B > ( 1 , 2 )", "tag ::< 1 , 2 > ( )", "g ::< 'c' , \"s\" , 3 > ( {F} )", "Vec ::< fn ( A ) -> B , C > :: new ( )",
+    "| p , q | p", "| p : M < K , V > , q | {F}", "1", "\"s, t\"", "{F} == {F}", "{F} < 1", "{F} . 0", "m ! ( {F} , 2 )",
+    "{ {F} ; 1 }", "if {F} . ok ( ) { 1 } else { 2 }", "{F} as u8", "{F} ?", "& mut {F}", "self . len ( )", "{F} ( 1 , 2 )",
+]
+
+
+def gen_args(rng, fields, n, bare_p=0.55):
+    """n arguments (positional first, then aliased) -> list of (alias|None, source, bare field or None)"""
+    n_alias = rng.randrange(0, n + 1) if rng.random() < 0.7 else 0
+    # an alias may shadow a field name: `{a}` then denotes the argument, not the field
+    names = rng.sample(["x", "name", "w", "val", "r#ref"] + [f for f in fields if not f.startswith("r#")], n_alias)
+    out = []
+    for i in range(n):
+        alias = names[i - (n - n_alias)] if i >= n - n_alias else None
+        f = rng.choice(fields)
+        if rng.random() < bare_p:
+            out.append((alias, f, f))
+        else:
+            out.append((alias, rng.choice(SHAPES).replace("{F}", f), None))
+    return out
+
+
+def render_args(rng, args):
+    parts = []
+    for alias, src, _ in args:
+        if alias is None:
+            parts.append(src)
+        else:
+            parts.append(alias + rng.choice([" = ", "=", " =", "= "]) + src)
+    return rng.choice([", ", ",", " , "]).join(parts) + ("," if args and rng.random() < 0.2 else "")
+
+
+def ph(ref, ty):
+    return "{" + ref + ((":" + ty) if ty else "") + "}"
+
+
+def gen_bound_case(rng):
+    kind = rng.choice(["tuple", "tuple", "named", "named", "variant-tuple", "variant-named"])
+    fields = ["_0", "_1", "_2"] if "tuple" in kind else ["a", "b", "r#type"]
+    derive = rng.choice(["Display", "Display", "Display", "Debug", "LowerHex", "Binary"])
+    n = rng.choice([1, 1, 2, 2, 3])
+    args = gen_args(rng, fields, n)
+    # placeholders: every argument is used; the k-th implicit `{}` is argument k
+    n_impl = rng.randrange(0, n + 1)
+    refs = [("impl", k) for k in range(n_impl)]
+    rest = []
+    for i in range(n):
+        if i < n_impl and rng.random() < 0.7:
+            continue
+        alias = args[i][0]
+        if alias is not None and rng.random() < 0.5:
+            rest.append(("name", alias))
+        else:
+            rest.append(("idx", i))
+    if rng.random() < 0.3:      # an implicitly captured field next to explicit arguments
+        f = rng.choice([x for x in fields if not x.startswith("r#")])
+        if all(a[0] != f for a in args):
+            rest.append(("name", f))
+    # implicit ones keep their relative order; the others are inserted anywhere
+    seq = list(refs)
+    for r in rest:
+        seq.insert(rng.randrange(len(seq) + 1), r)
+    if not seq:
+        seq = [("idx", 0)]
+    lit = ""
+    phs = []
+    for (k, v) in seq:
+        ty = rng.choice(["", "", "", "?", "x", "b", "e", "p", "o", "X", "E"])
+        ref = "" if k == "impl" else str(v) if k == "idx" else v.replace("r#", "")
+        if k == "name" and v.startswith("r#"):
+            continue    # `{ref}`-style names of raw aliases are not written in literals
+        lit += rng.choice(["", " ", "a", "-", "{{", "}}"]) + ph(ref, ty)
+        phs.append((k, v, TRAIT_OF_TYPE[ty]))
+    attr = ATTR_OF_DERIVE[derive]
+    a_src = render_args(rng, args)
+    body = '"%s"%s' % (lit, (rng.choice([", ", ","]) + a_src) if args else "")
+    tys = ["T0", "T1", "T2"]
+    if kind == "tuple":
+        item = "#[%s(%s)] struct S<T0, T1, T2>(T0, T1, T2);" % (attr, body)
+    elif kind == "named":
+        item = "#[%s(%s)] struct S<T0, T1, T2> { a: T0, b: T1, r#type: T2 }" % (attr, body)
+    elif kind == "variant-tuple":
+        item = "enum E<T0, T1, T2> { #[%s(%s)] V(T0, T1, T2), #[%s(\"w\")] W }" % (attr, body, attr)
+    else:
+        item = "enum E<T0, T1, T2> { #[%s(%s)] V { a: T0, b: T1, r#type: T2 }, #[%s(\"w\")] W }" % (attr, body, attr)
+    return {"derive": derive, "item": item, "args_src": a_src, "phs": phs, "fields": fields, "tys": tys, "lit": lit,
+            "n": n}
+
+
+PASS_LITS = ["{}", "{0}", "{1}", "{name}", "{x}", "{:?}", "{0:x}", "{name:?}", "{x:p}", "{:>4}", "{0:5}", "{:#?}", "{:x?}",
+             "{} {}", "a{}", "{0}{0}", "{_0}", "{a}", "{}\\n", ""]
+
+
+def gen_pass_case(rng):
+    n = rng.choice([0, 1, 1, 1, 1, 2])
+    fields = rng.choice([["_0", "_1", "_2"], ["a", "b", "c"]])
+    args = gen_args(rng, fields, n, bare_p=0.4)
+    if n and rng.random() < 0.5:      # make single-alias cases frequent
+        args = [(rng.choice(["name", "x", "other"]), args[0][1], args[0][2])] + args[1:]
+        if n == 2 and args[1][0] == args[0][0]:
+            args[1] = ("w",) + args[1][1:]
+    lit = rng.choice(PASS_LITS)
+    a_src = render_args(rng, args)
+    return {"lit": lit, "args_src": a_src, "n": n, "body": '"%s"%s' % (lit, (", " + a_src) if args else "")}
+
+
+_PH = re.compile(r"^\{([A-Za-z_][A-Za-z0-9_]*|[0-9]+)?(?::([?xXobeEp]?))?\}$")
+
+
+def syn_args(split):
+    """(alias, expression tokens, bare identifier or None) per argument, from syn's split of the argument tokens"""
+    toks = split["tokens"]
+    out = []
+    for e in split["syn"]["ok"]:
+        sl = toks[e["start"]:e["end"]]
+        al = lexical_alias(sl)
+        body = sl[2:] if al is not None else sl
+        bare = body[0]["i"] if len(body) == 1 and is_id(body[0]) and body[0]["i"] not in RUST_KEYWORDS else None
+        out.append((al, body, bare))
+    return out
+
+
+def resolve(args, kind, v):
+    """the argument a placeholder denotes for format_args!: index -> list order (aliased or not);
+    name -> the argument with that alias, else an implicit capture of the name"""
+    if kind in ("impl", "idx"):
+        return ("arg", v) if v < len(args) else ("invalid", None)
+    for i, (al, _, _) in enumerate(args):
+        if al is not None and al.replace("r#", "") == v.replace("r#", ""):
+            return ("arg", i)
+    return ("capture", v)
+
+
+def check_resolution(binary, chk, rng, n_bound, n_pass, report):
+    bound_cases = [gen_bound_case(rng) for _ in range(n_bound)]
+    pass_cases = [gen_pass_case(rng) for _ in range(n_pass)]
+    # fixed regression inputs (single aliased argument behind a bare placeholder; alias referred to by position)
+    for body in ['"{}", value = _0', '"{0}", value = _0', '"{value}", value = _0', '"{:?}", x = _0 + 1', '"{}", x=_0',
+                 '"{0:x}", name = a', '"{}", _0', '"{name}"', '"{}", other = a, b', '"{1}", a', '"{0}", a, b']:
+        lit = re.match(r'"([^"]*)"', body).group(1)
+        rest = body[len(lit) + 2:].lstrip(", ")
+        pass_cases.append({"lit": lit, "args_src": rest, "n": None, "body": body})
+    reqs = []
+    for c in bound_cases:
+        reqs.append({"cmd": "c16_split", "tokens": c["args_src"]})
+        reqs.append({"cmd": "expand", "derive": c["derive"], "item": c["item"], "summary": True})
+    for c in pass_cases:
+        reqs.append({"cmd": "c16_split", "tokens": c["args_src"]})
+        reqs.append({"cmd": "fmt_attr", "tokens": c["body"]})
+    res = common.run_jsonl(binary, reqs, timeout=300)
+    relex_reqs = []
+    stats = {"bound_cases": 0, "bound_placeholders": 0, "pass_cases": 0, "pass_delegated": 0}
+    # ---- (b) bound inference
+    for k, c in enumerate(bound_cases):
+        sp, ex = res[2 * k], res[2 * k + 1]
+        if not isinstance(sp, dict) or "ok" not in sp.get("syn", {}) or len(sp["syn"]["ok"]) != c["n"]:
+            continue        # generator produced something syn reads differently: no opinion
+        if not isinstance(ex, dict) or "items" not in ex:
+            report("bound-expansion-failed", "`%s` does not expand: %s" % (c["item"], json.dumps(ex)[:300]), {"item": c["item"]})
+            continue
+        args = syn_args(sp)
+        field_ty = dict(zip([f.replace("r#", "") for f in c["fields"]], c["tys"]))
+        want = set()
+        impl = 0
+        ok = True
+        for (kind, v, tr) in c["phs"]:
+            where, i = resolve(args, kind, v)
+            if where == "invalid":
+                ok = False
+                break
+            name = args[i][2] if where == "arg" else i
+            if name is not None and name.replace("r#", "") in field_ty:
+                want.add((field_ty[name.replace("r#", "")], tr))
+        if not ok:
+            continue
+        got = set()
+        for it in ex["items"]:
+            if it.get("kind") == "impl":
+                for w in it.get("where", []):
+                    m = re.match(r"^(\w+) : .*:: (\w+)$", w)
+                    got.add((m.group(1), m.group(2)) if m else ("?", w))
+        stats["bound_cases"] += 1
+        stats["bound_placeholders"] += len(c["phs"])
+        chk.count(("bound", c["item"]), True)
+        if got != want:
+            report("bound-argument-mismatch",
+                   "`%s`: format_args! resolves the placeholders to arguments needing the bounds %s, the derive infers %s" %
+                   (c["item"], sorted(want), sorted(got)), {"item": c["item"], "expected": sorted(want), "observed": sorted(got)})
+    # ---- (a) pass-through
+    base = 2 * len(bound_cases)
+    pend = []
+    for k, c in enumerate(pass_cases):
+        sp, fa = res[base + 2 * k], res[base + 2 * k + 1]
+        if not isinstance(sp, dict) or "ok" not in sp.get("syn", {}) or not isinstance(fa, dict) or "args" not in fa:
+            continue
+        args = syn_args(sp)
+        m = _PH.match(c["lit"])
+        want = None
+        if m:
+            ref, ty = m.group(1), m.group(2) or ""
+            kind, v = ("impl", 0) if ref is None else ("idx", int(ref)) if ref.isdigit() else ("name", ref)
+            where, i = resolve(args, kind, v)
+            if where == "arg" and len(args) == 1:
+                want = (args[i][1], TRAIT_OF_TYPE[ty])
+            elif where == "capture" and not args:
+                want = ([{"i": v}], TRAIT_OF_TYPE[ty])
+        tr = fa.get("transparent")
+        pend.append((c, want, tr))
+        if tr is not None:
+            relex_reqs.append({"cmd": "tokens", "tokens": tr["expr"]})
+    rl = iter(common.run_jsonl(binary, relex_reqs, timeout=300))
+    for (c, want, tr) in pend:
+        stats["pass_cases"] += 1
+        chk.count(("pass", c["body"]), True)
+        got = None
+        if tr is not None:
+            r = next(rl)
+            got = (drop_last_joint(r.get("ok") or []), tr["trait"])
+            stats["pass_delegated"] += 1
+        w = None if want is None else (drop_last_joint(want[0]), want[1])
+        if got != w:
+            def sh(x):
+                return None if x is None else "%s::fmt(%s)" % (x[1], show(x[0]))
+            report("passthrough-argument-mismatch",
+                   "`#[display(%s)]`: for format_args! the sole bare placeholder denotes %s, the derive delegates to %s" %
+                   (c["body"], sh(w), sh(got)), {"attr": c["body"], "expected": sh(w), "observed": sh(got)})
+    return stats
+
+
 # ------------------------------------------------------------------ the check
 
 def run(tier, seed, replay):
@@ -638,6 +915,15 @@ def run(tier, seed, replay):
     chk.cov["traces_validated_against_impl"] = len(lexable)
     chk.cov["oracle_evaluations"] = n_syn
     chk.cov["syn_expr_forms_covered"] = dict(sorted(kinds.items()))
+
+    # argument resolution (pass-through and bound inference) against format_args!'s own rules
+    if not replay:
+        res_hits = []
+        rstats = check_resolution(binary, chk, chk.rng, 700 if tier == "quick" else 8000, 500 if tier == "quick" else 5000,
+                                  lambda k, t, d: res_hits.append((k, t, d)))
+        chk.cov["argument_resolution"] = rstats
+        for (k, t, d) in res_hits:
+            found.setdefault(k, []).append(({"src": d.get("item") or d.get("attr")}, t, d))
 
     # report, smallest example of every class first; grammar cases are shrunk
     for key in sorted(found):
